@@ -858,6 +858,10 @@ impl<'b> InnerBucket<'b> {
                         // Make that child page the bucket's root page.
                         self.meta.root_page = page_id;
                         self.root = PageNodeID::Page(page_id);
+                    } else if !node.leaf() && node.data.len() == 0 {
+                        // Every child was emptied and removed, so the bucket is empty again:
+                        // an empty bucket is a single empty leaf.
+                        node.data = NodeData::Leaves(Vec::new());
                     }
                 } else {
                     // else find a sibling and merge this node with that one
@@ -871,7 +875,10 @@ impl<'b> InnerBucket<'b> {
                         // since there are no siblings to move the data to.
                         // When we handle the parent, it will get merged with it's siblings or promoted
                         // to root.
-                        if branches.len() == 1 {
+                        // An empty node has no data to move and must not survive until it is
+                        // spilled, so it is removed even then; the parent is left empty and is
+                        // removed in turn when we handle it.
+                        if branches.len() == 1 && node.data.len() > 0 {
                             continue;
                         }
                         // check if there is any data left to copy
